@@ -97,7 +97,7 @@ func main() {
 }
 
 func c13(c *Ctx) {
-	c.Rule = "fault enumeration in a child process built with the delay overlay: scenarios close-idle / close-early (before the join completes) / close-queued (3..7 commands, the terminal goes after 1-2 were written) / close-outstanding / rst-outstanding / close-afterresp / close-timer (close within +-4 ms of the timer expiry) / notmo (no timeout, released by the disconnect) / mixed / burst, 1..8 callers, timeouts 60-600 ms, under 4 delay configurations (seeded Gosched only, sleeps up to 0.2 / 1 / 3 ms at 30 / 15 / 5 % of the instrumented sites); a case is non-trivial when at least one call was made and the terminal went away; distinct = distinct recorded histories"
+	c.Rule = "fault enumeration in a child process built with the delay overlay: scenarios close-idle / close-early (before the join completes) / close-queued (3..7 commands, the terminal goes after 1-2 were written) / close-outstanding / rst-outstanding / close-afterresp / close-timer (close within +-4 ms of the timer expiry) / notmo (no timeout, released by the disconnect) / mixed / burst, 1..8 callers, timeouts 60-600 ms, under 6 delay configurations (seeded Gosched only at 30 / 60 % of the instrumented sites, sleeps up to 0.2 / 0.5 / 1 / 3 ms at 30 / 20 / 15 / 5 %); a case is non-trivial when at least one call was made and the terminal went away; distinct = distinct recorded histories"
 	for _, o := range oldSchedules {
 		c.Do(o[0], false)
 	}
@@ -111,12 +111,13 @@ func c13(c *Ctx) {
 	}
 	kinds := []string{"close-idle", "close-early", "close-queued", "close-queued", "close-outstanding", "rst-outstanding",
 		"close-afterresp", "close-timer", "close-timer", "notmo", "mixed", "burst"}
-	cfgs := []DelayCfg{{int(c.Seed), 0, 30}, {int(c.Seed) + 1, 200, 30}, {int(c.Seed) + 2, 1000, 15}, {int(c.Seed) + 3, 3000, 5}}
-	per := 4
+	cfgs := []DelayCfg{{Seed: int(c.Seed), US: 0, P: 30}, {Seed: int(c.Seed) + 1, US: 200, P: 30}, {Seed: int(c.Seed) + 2, US: 1000, P: 15},
+		{Seed: int(c.Seed) + 3, US: 3000, P: 5}, {Seed: int(c.Seed) + 4, US: 0, P: 60}, {Seed: int(c.Seed) + 5, US: 500, P: 20}}
+	per := 16
 	if !c.Quick() {
 		per = 40
 		for i := 0; i < 12; i++ {
-			cfgs = append(cfgs, DelayCfg{int(c.Seed) + 10 + i, []int{0, 100, 500, 2000}[i%4], []int{50, 30, 10}[i%3]})
+			cfgs = append(cfgs, DelayCfg{Seed: int(c.Seed) + 10 + i, US: []int{0, 100, 500, 2000}[i%4], P: []int{50, 30, 10}[i%3]})
 		}
 	}
 	type br struct {
